@@ -155,6 +155,8 @@ def finish_svd(eng, acc, task, A0, q0, q1, tol, u, s, v, q, snap, inputs, fails,
         prod = (u * s).dot(v) if k else np.zeros((m, n), dtype=object)
         if any(not is_structural_zero(x) for x in prod.reshape(-1)) or any(not is_structural_zero(x) for x in A0.reshape(-1)):
             fails.append('no common charge: product or input not zero')
+        # (for the zero matrix the property only requires a zero product without raising; block sparsity of the dummy factors under
+        #  the returned quantum number is part of the MPS-level invariant and is checked by C02 through compress / TDVP / DMRG)
     else:
         # zero-matrix path?  (w == 0 taken)
         wzero = zero_path(eng, all_s) if all_s else False
